@@ -107,11 +107,19 @@ def mark_left_recursion(rules: Iterable[Rule]) -> list[Rule]:
                 if not leaders:
                     break
 
-            if not leaders:
-                leaders = set(scc)
+            if leaders:
+                leader_names = {min(leaders)}
+            else:
+                # no rule lies on every cycle of the component: one leader
+                # cannot guard them all, so pick leaders until each cycle has one
+                leader_names = set()
+                for start in sorted(scc):
+                    for cycle in sccutils.find_cycles_in_scc(graph, scc, start):  # type: ignore # pyright: ignore[reportArgumentType]  # ty:ignore[invalid-argument-type]
+                        if not leader_names & set(cycle):
+                            leader_names.add(min(cycle))
 
-            leader_name = min(leaders)
-            rules[rule_index[leader_name]].is_lrec = True
+            for leader_name in leader_names:
+                rules[rule_index[leader_name]].is_lrec = True
 
         elif len(scc) == 1:
             name = min(scc)
